@@ -119,6 +119,9 @@ def run_case(case):
     ping = case.get("ping")
     sched = simkit.Sched(choices=case.get("choices", []), horizon=case.get("run_for", 60.0) + 150.0, repo=REPO, max_steps=2_000_000)
     net = simkit.SimNet(sched)
+    for at, delta in case.get("clock_steps") or []:
+        # the system clock is set while the run is in progress (NTP step, operator): waiting times are durations, not dates
+        sched.step_wall_clock(at, delta)
     specs = []
     for i, a in enumerate(attempts):
         k = a["kind"]
@@ -377,8 +380,8 @@ def _cls(obs, case, natt):
     succ = sum(1 for k in kinds if k not in ("refused", "reject", "hostunreach", "connect-timeout"))
     nt = natt >= 2 and fails >= 1 and succ >= 1
     obs.cls = ("external" if case.get("external") else "builtin", f"attempts:{min(natt, 6)}", f"stop:{'app-close' if case.get('close_at') is not None else kinds[-1]}",
-               f"on_reconnect:{int(case.get('on_reconnect', True))}", f"ping:{int(bool(case.get('ping')))}", f"tls:{int(bool(case.get('secure')))}") + tuple(sorted({f"kind:{k}" for k in kinds}))
-    obs.nt = repr((case["attempts"], case["interval"], case.get("external"), case.get("close_at"), case.get("on_reconnect", True), case.get("ping"), case.get("choices"), case.get("secure"), case.get("via_global"))) if nt else None
+               f"on_reconnect:{int(case.get('on_reconnect', True))}", f"ping:{int(bool(case.get('ping')))}", f"tls:{int(bool(case.get('secure')))}", f"wall-clock-stepped:{int(bool(case.get('clock_steps')))}") + tuple(sorted({f"kind:{k}" for k in kinds}))
+    obs.nt = repr((case["attempts"], case["interval"], case.get("external"), case.get("close_at"), case.get("on_reconnect", True), case.get("ping"), case.get("choices"), case.get("secure"), case.get("via_global"), case.get("clock_steps"))) if nt else None
     return obs
 
 
@@ -447,6 +450,9 @@ def cases(draw):
             att.append({"kind": "stay", "hs_delay": 0.0})
     if ping or c.get("close_at") is not None:
         c["choices"] = draw(st.lists(st.integers(0, 2), max_size=20))
+    if not ping and draw(st.integers(0, 2)) == 0:
+        # (keepalive judges elapsed time by the wall clock; C16 is about that. Here: the waits between attempts)
+        c["clock_steps"] = draw(st.lists(st.tuples(st.sampled_from([0.1, 0.6, 1.2, 2.4, 5.5, 12.0]), st.sampled_from([-3600.0, -86400.0, -2.0, 3600.0, 0.75])).map(list), min_size=1, max_size=3))
     return c
 
 
